@@ -301,3 +301,53 @@ func VH_C08_Big() {
 	want := s + "|" + s + "x|" + s + "|" + s + "|" + s + "|" + s + "|true|true|true|true|" + s + "," + s + "|true|true|" + s + "|" + s + "|" + s + "|" + abs + "|" + s + "|" + s
 	symAssert(out == want, "whole-results-are-integers-everywhere")
 }
+
+// ---- C08.calls: arguments of a call are evaluated once each and stay what they were ------------------
+
+// VH_C08_Calls: function calls nested in the arguments of function calls (max, min, range, length,
+// a user function that returns its argument list), in every argument position, with arithmetic around
+// them; a, b, c symbolic in [1,4]. Oracle: the value computed by the harness.
+func VH_C08_Calls() {
+	a, b, c := symInt(), symInt(), symInt()
+	symAssume(a >= 1 && a <= 4 && b >= 1 && b <= 4 && c >= 1 && c <= 4)
+	mx := func(x, y int) int {
+		if x > y {
+			return x
+		}
+		return y
+	}
+	mn := func(x, y int) int {
+		if x < y {
+			return x
+		}
+		return y
+	}
+	i := strconv.Itoa
+	cases := []struct {
+		src  string
+		want string
+	}{
+		{"{{ max(a * b, min(b + 1, c)) }}", i(mx(a*b, mn(b+1, c)))},
+		{"{{ min(max(a, b), max(b, c), c + 1) }}", i(mn(mn(mx(a, b), mx(b, c)), c+1))},
+		{"{{ max(a, max(b, max(c, 2))) }}", i(mx(a, mx(b, mx(c, 2))))},
+		{"{{ list(a, list(b, c)|join('-'), c)|join(',') }}", i(a) + "," + i(b) + "-" + i(c) + "," + i(c)},
+		{"{{ list(list(a)|join, list(b, c)|length, list(max(a, b), min(b, c))|join('/'))|join(',') }}", i(a) + ",2," + i(mx(a, b)) + "/" + i(mn(b, c))},
+		{"{{ range(min(a, b), max(a, b))|length }}", i(mx(a, b) - mn(a, b) + 1)},
+		{"{{ max(a, b) + max(b, c) * min(a, c) }}", i(mx(a, b) + mx(b, c)*mn(a, c))},
+		{"{% set m = max(a, min(b, c)) %}{{ list(m, max(m, c))|join(',') }}", i(mx(a, mn(b, c))) + "," + i(mx(mx(a, mn(b, c)), c))},
+		{"{% macro k(p, q) %}{{ p }}:{{ q }}{% endmacro %}{{ _self.k(max(a, b), min(b, c)) }}|{{ list(a, _self.k(b, c)|trim, c)|length }}", i(mx(a, b)) + ":" + i(mn(b, c)) + "|3"},
+		{"{{ (xs|slice(min(a, 2), max(1, 1)))|join }}{{ xs|slice(0, min(a, b))|length }}", []string{"q", "r", "r"}[mn(a, 2)-0-1+0] + i(mn(mn(a, b), 3))},
+	}
+	k := symChoice(len(cases))
+	symTag("expr:" + cases[k].src)
+	e := New()
+	e.AddFunction("list", func(args ...interface{}) (interface{}, error) { return append([]interface{}{}, args...), nil })
+	if e.RegisterString("t", cases[k].src) != nil {
+		symAssert(false, "template-parses")
+		return
+	}
+	out, err := e.Render("t", map[string]interface{}{"a": a, "b": b, "c": c, "xs": []interface{}{"p", "q", "r"}})
+	symCover("rendered")
+	symAssert(err == nil, "renders")
+	symAssert(out == cases[k].want, "nested-calls-keep-their-arguments")
+}
